@@ -11,12 +11,27 @@ import asyncio as aio
 import random
 
 from vf import simrt
-from vf.core import Check, CaseResult, HarnessError, U, EPS
+from vf.core import Check, CaseResult, HarnessError, HarnessSignal, U, EPS
 
 TICK = 4 * U
 # elements may themselves be exception instances (results of gather(return_exceptions=True), say): they are
 # data to be yielded, not failures of the source
-ELEMS = [None, 0, '', 1, 1, 2, (), False, 'x', ValueError('an element, not a failure'), KeyError('k'),
+class _Anything:
+    """compares equal to everything (unittest.mock.ANY, a wildcard matcher): still an element like any other"""
+    def __eq__(self, other):
+        return True
+
+    def __ne__(self, other):
+        return False
+
+    def __hash__(self):
+        return 1
+
+    def __repr__(self):
+        return '<ANYTHING>'
+
+
+ELEMS = [None, 0, '', 1, 1, 2, (), False, 'x', _Anything(), ValueError('an element, not a failure'), KeyError('k'),
          StopIteration('elem'), StopAsyncIteration('elem'), HarnessError('element'), KeyboardInterrupt, RuntimeError]
 
 
@@ -31,7 +46,7 @@ def gen(rng):
         fail = None
     if kind == 'a-range':
         elems = list(range(n))
-    scen = {'kind': kind, 'elems': elems, 'fail': fail,
+    scen = {'kind': kind, 'elems': elems, 'fail': fail, 'fail_class': rng.choice(['error', 'error', 'signal']),
             'pd': rng.choice([0, TICK / 2, 5 * TICK, 5 * TICK, 50 * TICK, 300 * TICK]),
             'cd': rng.choice([0, TICK / 2, 5 * TICK, 5 * TICK, 50 * TICK])}
     if rng.random() < 0.04 and kind not in ('a-list', 'a-range'):
@@ -71,7 +86,8 @@ class IterHarness:
         box = {'got': [], 'end': None, 'ticks': [], 'src_threads': set(), 'alive': None, 'err': None}
 
         def main(s):
-            err = HarnessError('source', id(s))
+            # the source's failure: an ordinary exception, or one that is BaseException but not Exception
+            err = (HarnessSignal if scen.get('fail_class') == 'signal' else HarnessError)('source', id(s))
             box['err'] = err
             spawned_before = len(s.ts) if hasattr(s, 'ts') else 0
 
@@ -184,7 +200,7 @@ class IterHarness:
                                 if cd:
                                     await aio.sleep(cd)
                             box['end'] = 'stop'
-                        except HarnessError as e:
+                        except (HarnessError, HarnessSignal) as e:
                             box['end'] = e
                         except BaseException as e:     # noqa
                             box['end'] = ('other', repr(e))
@@ -220,7 +236,7 @@ class IterHarness:
                             if cd:
                                 s.sleep(cd)
                         box['end'] = 'stop'
-                    except HarnessError as e:
+                    except (HarnessError, HarnessSignal) as e:
                         box['end'] = e
                     except BaseException as e:     # noqa
                         box['end'] = ('other', repr(e))
@@ -328,6 +344,7 @@ class C16(Check):
                     res.violate('C16:termination', 'iteration did not stop normally', end=repr(box['end']))
             else:
                 st['failing_source'] += 1
+                st[f'failure_class_{scen.get("fail_class", "error")}'] += 1
                 st[f'fail_at_{"start" if fail == 0 else "end" if fail == len(elems) else "middle"}'] += 1
                 if box['end'] is not box['err']:
                     res.violate('C16:error-not-propagated', 'the consumer did not receive the source\'s exception',
